@@ -5,6 +5,7 @@
 import XzVerif.Lemmas.RangeCoderAdaptive
 import XzVerif.Lemmas.LzmaChunk
 import XzVerif.Lemmas.RangeCoderRename
+import XzVerif.Lemmas.Lzma1ExecFinal
 import XzVerif.Model.Lzma2Enc
 import XzVerif.Model.Lzma2
 import XzVerif.Model.MfPos
@@ -195,13 +196,45 @@ def lzma2_roundtrip_statement : Prop :=
     Lzma2.lzma2Decode dictSize res.out preset.toList =
       { ret := .streamEnd, out := data.toList, consumed := res.out.length }
 
-/-- NOT proved: the executable LZMA1 encoder model (incl. MicroLZMA output limiting) computes the specification encoder on
-    the symbols of the trace. Tested by the driver op `spec1` on every small traced case. -/
-def lzma1_model_refines_spec_statement : Prop :=
-  ∀ (p : Props) (dictSize : Nat) (preset data : ByteArray) (trace : Array TraceRec) (res : EncResult),
-    lzma1Encode p dictSize true 0 (preset ++ data) preset.size trace = .ok res →
+/-- The EXECUTABLE LZMA1 encoder model (`LzmaEnc.lzma1Encode`: the function the driver runs over the H2 trace and whose
+    bytes are compared with the C encoder's on every check) refines the specification encoder: whenever it accepts a
+    trace, the symbols of the trace (first literal of `encode_init` included) are a valid description of the data over
+    the preset dictionary, and its output is exactly `lzma1EncodeSpec` of these symbols — the function on which
+    `lzma1_roundtrip` is stated. (No output limit, end marker used; `dict_size` is a `uint32_t`.) -/
+theorem lzma1_model_refines_spec (p : Props) (dictSize : Nat) (hd : dictSize ≤ 4294967295) (preset data : ByteArray)
+    (trace : Array TraceRec) (res : EncResult)
+    (h : lzma1Encode p dictSize true 0 (preset ++ data) preset.size trace = .ok res) :
     ∃ syms, Describes dictSize preset.toList {} syms data.toList ∧
-      lzma1EncodeSpec p dictSize preset.toList syms = some res.out
+      lzma1EncodeSpec p dictSize preset.toList syms = some res.out :=
+  LzmaExec.lzma1_exec_refines p dictSize hd preset data trace res h
+
+/-- The EXECUTABLE LZMA1 decoder model `Lzma.lzmaDecode` (Model/Lzma.lean: `lz_decode`/`decode_buffer` with dictionary
+    wrap-around and pending output steps, `lzma_decode` with the resumable symbol loop, the real `rc_bittree_rev4`
+    indexing of `pos_align`, `dict.pos`-based pos_state / literal contexts also behind a preset dictionary — the function
+    that ./check C03 compares with the C decoder) agrees with the specification decoder on everything the specification
+    encoder produces: for every lc/lp/pb accepted by `is_lclppb_valid`, every dictionary size, every preset dictionary
+    `hist` and EVERY valid description `syms` of `data` — whatever the parser chose — decoding the encoder's bytes gives
+    LZMA_STREAM_END, exactly `data`, and consumes exactly the stream (any output capacity larger than the data). -/
+theorem lzma1_decoder_model_roundtrip (p : Props) (hp : PropsOk p) (dictSize : Nat) (hd : dictSize ≤ 4294967295)
+    (hist data : List UInt8) (syms : List Sym) (hdesc : Describes dictSize hist {} syms data)
+    (bytes : List UInt8) (hbytes : lzma1EncodeSpec p dictSize hist syms = some bytes) (outCap : Nat)
+    (hcap : data.length < outCap) :
+    Lzma.lzmaDecode p dictSize none true bytes hist outCap = { ret := .streamEnd, out := data, consumed := bytes.length } :=
+  LzmaExec.lzmaDecode_spec_bytes p hp dictSize hd hist data syms hdesc bytes hbytes outCap hcap
+
+/-- Executable encoder model, then executable decoder model (the composition the driver ops `lzma1` + `dec1` run on every
+    traced case): the data comes back, LZMA_STREAM_END, every byte of the stream consumed. -/
+theorem lzma1_model_roundtrip (p : Props) (hp : PropsOk p) (dictSize : Nat) (hd : dictSize ≤ 4294967295)
+    (preset data : ByteArray) (trace : Array TraceRec) (res : EncResult)
+    (h : lzma1Encode p dictSize true 0 (preset ++ data) preset.size trace = .ok res) (outCap : Nat)
+    (hcap : data.size < outCap) :
+    Lzma.lzmaDecode p dictSize none true res.out preset.toList outCap =
+      { ret := .streamEnd, out := data.toList, consumed := res.out.length } :=
+  LzmaExec.lzma1_exec_roundtrip p hp dictSize hd preset data trace res h outCap hcap
+
+/-- non-vacuity of the hypotheses: the executable encoder accepts a (tiny) trace -/
+example : (lzma1Encode { lc := 0, lp := 0, pb := 0 } 4096 true 0 (ByteArray.mk #[97]) 0 #[]).toOption.map (·.consumed) = some 1 := by
+  decide +kernel
 
 /-- NOT proved (stated for MicroLZMA): with an output limit the model keeps a prefix of the symbols whose coded size, incl.
     the flush, is within the limit, and reports the number of bytes they cover. Tested against the C encoder exactly
